@@ -2,7 +2,8 @@
 
 Streams: (i) dyadic probability vectors to implementation and model (tables, cells, draws: exact);
 (ii) real chains through the public factory for every sampling method (law of the implementation as a function of u,
-Riemann-exact on the cells predicted by M from the tables extracted from the implementation);
+Riemann-exact on the cells predicted by M from the tables extracted from the implementation; copula chains in dimension
+2, 3 (4 in thorough) for the inversion sampler, plus a lattice of uniforms independent of M's cells);
 (iii) draw histories (inversion memo / storage cap / skip pointer, lru-cached adapted samplers) against fresh instances;
 (iv) the batch entry point `sample(size)` against the single-uniform entry point.
 """
@@ -32,7 +33,15 @@ RULE = ("(i) dyadic: probability vectors with 2..64 (thorough ..512) entries tha
         "uniform) x {alias, table, bst, huffman}; (ii) factory: zoo.model_stream x six grid constructors x the 6 one-dimensional "
         "SamplingMethods, 2-d copula chains x {INVERSION, BINARYSEARCHTREEADAPTED} and 3-d copula chains x BINARYSEARCHTREEADAPTED "
         "(one 5^3 grid in quick, up to 9^3 in thorough), the n-d sampler against M's AdaptedNd model fed with the extracted buckets and "
-        "the box masses the implementation computes; (iii) random interleavings with repetition of sample_with_u calls, _max_storage "
+        "the box masses the implementation computes; n-d INVERSION chains for d >= 3 (factory pairing = n-dimensional Rosenberg-Strong, "
+        "which is not increasing along a grid line): every run one chain per copula {independent, clayton, dependent} on a 5^3 fixed-size "
+        "box, a 7^3 credit grid whose origin is off the middle (4 points left / 2 right, pairing indices skipped) and a 7^3 box or 9^3 "
+        "symmetric credit grid; thorough adds 5^3..9^3 boxes, both credit grids and 3^4 / 5^4 boxes for every copula; reference = C14's "
+        "pure zdProject enumeration with the factory's pairing kind of that dimension, carried on until every state of the grid box has "
+        "appeared (independent of the sampler's own enumeration bound); every copula chain is additionally asked, on a never-used "
+        "instance and in random order, a lattice of uniforms that does not come from M's cells (odd multiples of 1/(2K), K = 192 / 1024, "
+        "and 2^-k, 1 - 2^-k): state in the box, not the origin, positive probability, no `np.random.choice` fallback below the total "
+        "mass, same answer as the swept instance; (iii) random interleavings with repetition of sample_with_u calls, _max_storage "
         "lowered; (iv) sample(size) with a prescribed uniform vector; (v) cross-instance histories: two to four sampler objects (same and "
         "mixed methods) built on IDENTICAL models/grids in one process (two fixed asymmetric HEM uniform grids, random chains; 2-d/3-d "
         "copula chains), the first inversion sampler draws to a pairing index past the switch 2*min(L,R) but not to the end, then a "
@@ -63,10 +72,17 @@ NOT_PROVED = [
     "tables (branch c02.adnd.additive_and_consistent_defect); float slivers at bucket boundaries are a known finding; cross-instance "
     "independence is only tested (stream v), the model has no shared state by construction",
     "1-d adapted bisection: draw_spec proved for a cell-mass table `w` with P(l,r) = sum of w; additivity of the real mass is C01/C09",
+    "n-d inversion (d >= 2): that the enumeration bound `StatesManager.max_frontier_indices` reaches the largest pairing index of a state "
+    "inside the grid is NOT proved for the factory's pairings (for Rosenberg-Strong in d >= 3 the largest index of a frontier state is "
+    "strictly smaller - the defect fixed in /repo 94bedf1); M takes the implementation's bound as an input and mirrors it, the oracle "
+    "(law of u against joint cell mass / lambda over ALL states of the box, lattice of uniforms, fallback never reached) is what sees a "
+    "bound that is too small: 2-d, 3-d every run, 4-d in thorough, measured on the grids of the run only; a lost mass below 2^-36 is not "
+    "seen (e.g. dependent copula on the asymmetric 3-d credit grid: 3e-21)",
     "floating point: thresholds are compared at cell midpoints and at boundaries +- 2^-30 width; u exactly on a boundary is a don't-care point",
 ]
 ASSUMPTIONS = ["float sums of a probability vector differ from 1 by a few ulps: the sliver [sum p, 1) of length < 2^-40 (sent to the last leaf / last "
-               "column / a frontier state by the implementations) is not judged",
+               "column / a frontier state by the implementations) is not judged (copula chains: lattice uniforms stop at min(1, total mass) - 2^-34, "
+               "the joint masses of a copula model add up to lambda only to ~1e-15 * number of states)",
                "the uniform source (numpy.random.uniform / random.getrandbits) is uniform",
                "PairingToZ1d.project is a pure function of its index as long as the sampler is its only caller (increasing first calls); "
                "stream (v) tests exactly this across sampler objects, against the pure enumeration of M",
@@ -74,7 +90,8 @@ ASSUMPTIONS = ["float sums of a probability vector differ from 1 by a few ulps: 
                "n-d adapted sampler: cells narrower than 2^-46 (float slivers between an axis vector's last entry and the bucket mass, where "
                "the code returns the index one past the bucket) are not judged"]
 TRUSTED = ["bisect.bisect_left, numpy.searchsorted (first index with entry >= u on a sorted list)",
-           "C14's Lean model of PairingToZ1d / PairingToZd enumeration order (used as the pure reference of the inversion sampler)"]
+           "C14's Lean model of PairingToZ1d / PairingToZd enumeration order (used as the pure reference of the inversion sampler; Szudzik in "
+           "dimension 2, the n-dimensional Rosenberg-Strong pairing `rs` from dimension 3 on, as chosen in samplingfactory.py:148-155)"]
 
 E30 = Fraction(1, 2 ** 30)
 TOL = Fraction(1, 2 ** 40)
@@ -431,18 +448,46 @@ def pure_env_1d(ctx, s, o, n):
     return adm, prob, incs, mf
 
 
-def pure_env_2d(ctx, s):
-    """same for the 2-d factory pairing (PairingToZd over Szudzik, omit_zero): states from C14's `zdProject`"""
+def factory_pairing_kind(dim):
+    """name (in C14's driver) of the N^d pairing `create_sampling_inversion_method` wraps in PairingToZd(omit_zero):
+    Szudzik in dimension 2, the n-dimensional Rosenberg-Strong pairing from dimension 3 on (samplingfactory.py:148-155)"""
+    return "szudzik" if dim == 2 else "rs"
+
+
+def pure_env_nd(ctx, s, oc, sizes):
+    """same for the d-dimensional factory pairing: states from C14's `zdProject` with the factory's pairing of that
+    dimension.  The enumeration is carried on, independently of the sampler's own bound, until every state of the grid
+    box other than the origin has appeared; `pure_mf` is the pairing index of the last one (a pairing need not be
+    increasing along a grid line, so this is NOT the largest index of a frontier state in general).  The tables handed
+    to M cover max(pure bound, the implementation's bound); M is run with the implementation's bound `mf` (it mirrors the
+    code), the oracle's target does not depend on either.  Returns (adm, prob, incs, mf, pure_mf)."""
     sm = s.state_manager
+    dim = len(sizes)
+    kind = factory_pairing_kind(dim)
     mf = int(sm.max_frontier_indices)
-    rows = ctx.lean(f"zdproj szudzik 1 2 0 {mf + 1}", name="C14")[1:-1].split(";")
-    incs = [tuple(int(v) for v in r.split(",")) for r in rows]
+    n_states = 1
+    for k in sizes:
+        n_states *= k
+    n_states -= 1
+    in_box = lambda inc: all(0 <= inc[k] + oc[k] < sizes[k] for k in range(dim)) and any(inc)
+    incs, seen, pure_mf = [], 0, -1
+    hard_cap = (2 * max(sizes) + 2) ** dim
+    chunk = max(n_states, 64)
+    while (seen < n_states or len(incs) < mf + 1) and len(incs) < hard_cap:
+        rows = ctx.lean(f"zdproj {kind} 1 {dim} {len(incs)} {chunk}", name="C14")[1:-1].split(";")
+        for r in rows:
+            inc = tuple(int(v) for v in r.split(","))
+            if in_box(inc):
+                seen += 1
+                pure_mf = len(incs)
+            incs.append(inc)
+    incs = incs[:max(pure_mf, mf) + 1]
     adm, prob = [], []
     for inc in incs:
-        inside = not sm.is_outside(inc)
+        inside = in_box(inc) and not sm.is_outside(inc)
         adm.append(1 if inside else 0)
         prob.append(float(s.probability_to_jump_to_state(inc)) if inside else 0.0)
-    return adm, prob, incs, mf
+    return adm, prob, incs, mf, pure_mf
 
 
 def one_d_chain_case(ctx, fam, params, kind, h, kw, mname, desc, hist=True, pre=None, stream="factory"):
@@ -618,7 +663,7 @@ def table_factory_case(ctx, d, cls, s, target, o, n, P="c02.factory"):
 
 
 # ------------------------------------------------------------------------------------------------ (iii) histories
-def history_case(ctx, d, cls, mk, cells, o, env=None, nd=False):
+def history_case(ctx, d, cls, mk, cells, o, env=None, nd=False, steps=None, lower_cap=True):
     """random interleavings (with repetitions) of single-uniform draws on one instance vs a fresh instance per uniform"""
     rng = ctx.rng
     us = [u for _, lo, hi in cells for u in probe_points(lo, hi)[:1]]
@@ -626,7 +671,7 @@ def history_case(ctx, d, cls, mk, cells, o, env=None, nd=False):
         return
     fresh_ref = mk().sampling                     # answers of a never-used instance, one uniform each in increasing order
     hcls = dict(cls, stream="history")
-    steps = ctx.n(60, 400)
+    steps = steps or ctx.n(60, 400)
     seq = [rng.choice(us) for _ in range(steps)]
     proc = mk()
     inst = proc.sampling
@@ -637,7 +682,10 @@ def history_case(ctx, d, cls, mk, cells, o, env=None, nd=False):
         adm, prob, incs, mf = env
         nadm = sum(adm)
         cap = rng.choice([1, 2, 3, max(1, nadm // 2), max(1, nadm - 1), nadm, nadm + 1] + [rng.randint(1, nadm + 1) for _ in range(7)])
-        inst._max_storage = cap
+        if lower_cap:
+            inst._max_storage = cap
+        else:                       # expensive rate closures: the memo keeps its default size (every state is evaluated once)
+            cap = int(inst._max_storage)
         # the memo index of a state equals its pairing index only without skipped indices below the cap
         adm_idx = [i for i, a in enumerate(adm) if a]
         hcls["cap_crossed_with_skipped_index"] = bool(nadm >= cap and adm_idx[cap - 1] >= cap)
@@ -743,6 +791,21 @@ def cell_state(cells, u):
         if lo < fu < hi:
             return st
     return None
+
+
+def cell_lookup(cells):
+    """u -> state of the (non-empty) predicted cell containing u strictly inside, None on boundaries / gaps"""
+    import bisect
+    srt = sorted(((lo, hi, st) for st, lo, hi in cells if hi > lo), key=lambda c: c[0])
+    los = [c[0] for c in srt]
+
+    def find(u):
+        fu = Fraction(u)
+        i = bisect.bisect_right(los, fu) - 1
+        if i >= 0 and srt[i][0] < fu < srt[i][1]:
+            return srt[i][2]
+        return None
+    return find
 
 
 def interleave_case(ctx, d, cls, samplers, mk_with, o, n):
@@ -999,6 +1062,57 @@ def nd_build_check(ctx, d, cls, s, oc, sizes):
                 return
 
 
+def lattice_case(ctx, d, cls, mk, mname, swept_single, cells, target):
+    """(a) the sampler as a function of u on a lattice of uniforms that does NOT come from M's predicted cells (odd
+    multiples of 1/(2K), and 2^-k / 1 - 2^-k towards both ends), asked in random order on a never-used instance.
+    Oracle, exactly the property: the returned state is a state of the grid box other than the origin with positive
+    probability; the inversion sampler's `np.random.choice` fallback (enumeration exhausted -> random frontier state) is not
+    reached for a uniform below the total mass; the answer equals the one of the instance swept before (history).
+    Tie: the answer is the state of M's cell containing u."""
+    rng = ctx.rng
+    K = ctx.n(192, 1024)
+    total = float(sum(target.values()))
+    top = min(1.0, total) - 2.0 ** -34           # the float-sum sliver [sum p, 1) is not judged (ASSUMPTIONS)
+    us = [(2 * i + 1) / (2.0 * K) for i in range(K)] + [2.0 ** -k for k in range(2, 40, 3)] + [1.0 - 2.0 ** -k for k in range(2, 34)]
+    us = sorted({u for u in us if 0.0 < u < top})
+    rng.shuffle(us)
+    ctx.count("c02.lattice", dict(d, stream="lattice", K=K), nontrivial=sum(1 for v in target.values() if v > 0) >= 3,
+              branch=f"{mname}:{cls['dim']}d:{cls['grid']}")
+    fallback, forbidden, differs, off = [], [], [], []
+    orig_choice = np.random.choice
+    predicted = cell_lookup(cells)
+    try:
+        fresh = mk().sampling
+        for u in us:
+            hit = []
+            with Patch(np.random, "choice", lambda *a, **k: (hit.append(u), orig_choice(*a, **k))[1]):
+                r = canon(fresh.sample_with_u(u)) if mname == "INVERSION" else canon(fresh.sample_with_us(np.array([u]))[0])
+            if hit:
+                fallback.append({"u": u, "returned": str(r)})
+            if r not in target or target[r] <= 0:
+                forbidden.append({"u": u, "returned": str(r), "why": "origin" if (isinstance(r, tuple) and not any(r)) else
+                                  "outside_grid" if r not in target else "zero_probability"})
+            if (r2 := swept_single(u)) != r:
+                differs.append({"u": u, "fresh_random_order": str(r), "swept_instance": str(r2)})
+            want = predicted(u)
+            if want is not None and want != r:
+                off.append({"u": u, "impl": str(r), "model": str(want)})
+    except Exception as e:  # noqa
+        ctx.fail("oracle", "c02.lattice.raises", d, {"raised": repr(e)}, cls=cls)
+        return
+    if off:
+        ctx.fail("corr", "c02.lattice.draw", d, {"name": f"{mname}: lattice of uniforms vs M's cells", "mismatches": off[:5], "count": len(off)}, cls=cls)
+    if fallback or forbidden:
+        ctx.fail("oracle", "c02.lattice.admissible", d,
+                 {"what": "a uniform below the total mass is sent to a state of probability zero / the origin / a state outside the grid, "
+                          "or the enumeration of the inversion sampler is exhausted (random frontier state)",
+                  "forbidden": forbidden[:5], "forbidden_count": len(forbidden), "fallback": fallback[:5], "fallback_count": len(fallback),
+                  "lattice_points": len(us), "total_mass": total}, cls=cls)
+    if differs:
+        ctx.fail("oracle", "c02.lattice.history", d, {"what": "a never-used instance asked the lattice in random order answers differently from the instance swept before",
+                                                      "first": differs[:4], "count": len(differs)}, cls=dict(cls, stream="history"))
+
+
 def parse_nd_cells(tok, oc):
     """cells of M's n-d model `[i:j,lo,hi;…]` as (state increment, lo, hi)"""
     out = []
@@ -1012,6 +1126,7 @@ def parse_nd_cells(tok, oc):
 
 def copula_case(ctx, margins_desc, cop, gkind, gkw, mname, firsts=()):
     rng = ctx.rng
+    dim = len(margins_desc)
     mk_model = lambda: zoo.make_copula_model([zoo.make_levy(f, p) for f, p in margins_desc], zoo.make_copula(cop))
     if gkind == "credit":
         mk_grid = lambda: zoo.CTMCCredit(h=gkw["h"], level_a=gkw["a"], model=mk_model(), symmetric_grid=gkw["sym"])
@@ -1052,8 +1167,11 @@ def copula_case(ctx, margins_desc, cop, gkind, gkw, mname, firsts=()):
     env = None
     try:
         if mname == "INVERSION":
-            env = pure_env_2d(ctx, s)
-            adm, prob, incs, mf = env
+            adm, prob, incs, mf, pure_mf = pure_env_nd(ctx, s, oc, sizes)
+            env = (adm, prob, incs, mf)
+            ctx.branches[f"c02.inversion.bound:{dim}d:" + ("implementation_below_last_inside_index" if mf < pure_mf else
+                                                          "equal" if mf == pure_mf else "implementation_above")] += 1
+            ctx.branches[f"c02.inversion.skipped_indices:{dim}d:" + ("yes" if 0 in adm[:pure_mf + 1] else "no")] += 1
             calls = []
             orig_choice = np.random.choice
 
@@ -1076,9 +1194,9 @@ def copula_case(ctx, margins_desc, cop, gkind, gkw, mname, firsts=()):
         ctx.fail("oracle", "c02.factory.raises", d, {"raised": repr(e)}, cls=cls)
         return
     if abs(total - 1) > Fraction(1, 2 ** 36):
-        ctx.fail("corr", "c02.factory.cells", d, {"name": f"{mname} 2-d: predicted cells do not fill [0,1)", "total": float(total)}, cls=cls)
+        ctx.fail("corr", "c02.factory.cells", d, {"name": f"{mname} {dim}-d: predicted cells do not fill [0,1)", "total": float(total)}, cls=cls)
     if bad:
-        ctx.fail("corr", "c02.factory.draw", d, {"name": f"{mname} 2-d: implementation at inside points of the predicted cells", "mismatches": bad[:5]}, cls=cls)
+        ctx.fail("corr", "c02.factory.draw", d, {"name": f"{mname} {dim}-d: implementation at inside points of the predicted cells", "mismatches": bad[:5]}, cls=cls)
     worst = None
     for st, t in target.items():
         err = abs(law.get(st, Fraction(0)) - t)
@@ -1103,11 +1221,37 @@ def copula_case(ctx, margins_desc, cop, gkind, gkw, mname, firsts=()):
         except Exception as e:  # noqa
             ctx.fail("oracle", "c02.factory.raises", d, {"raised": repr(e)}, cls=cls)
     batch_case(ctx, d, cls, s, single, us[:30])
+    lattice_case(ctx, d, cls, mk, mname, single, cells, target)
     if mname != "INVERSION":
         nd_boundary_points(ctx, d, cls, s, T, oc, sizes, single)
-    history_case(ctx, d, cls, mk, cells, None, env=env, nd=True)
+    # (a 4-d joint mass costs ~10 times a 3-d one and a capped memo re-enumerates the states at every draw: fewer draws from
+    # dimension 3 on, and the default memo size on 4-d grids with more than 200 states)
+    history_case(ctx, d, cls, mk, cells, None, env=env, nd=True, steps=None if dim <= 2 else ctx.n(60, 150) if dim == 3 else ctx.n(20, 60),
+                 lower_cap=not (dim >= 4 and len(target) > 200))
     if firsts:
         interleave_2d(ctx, d, cls, mname, [(mname, s)] + others, mk, cells)
+
+
+def nd_inversion_plan(ctx):
+    """(dimension, copula, grid kind, grid arguments) of the n-d INVERSION chains of a run"""
+    rng = ctx.rng
+    fixed = lambda dim, nbs: ("fixed", {"h": rng.choice([0.1, 0.05, 0.025]), "nb": rng.choice(nbs)})
+    levels = lambda dim: [-rng.choice([0.2, 0.3, 0.4]) for _ in range(dim)]
+
+    def credit(dim, sym):
+        return "credit", {"h": 0.1, "a": levels(dim), "sym": sym}
+    cops = list(zoo.COPULAS)
+    rng.shuffle(cops)
+    # quick: three 3-d chains, one per copula: a 5^3 box, a credit grid with the origin off the middle (7^3, 4 points left / 2 right),
+    # and one of {7^3 box, symmetric credit grid 9^3}
+    plan = [(3, cops[0], *fixed(3, [5])), (3, cops[1], *credit(3, False)),
+            (3, cops[2], *(fixed(3, [7]) if rng.random() < 0.5 else credit(3, True)))]
+    if ctx.thorough:
+        for cop in zoo.COPULAS:
+            plan += [(3, cop, *fixed(3, [5, 7, 9])), (3, cop, *fixed(3, [9])), (3, cop, *credit(3, False)), (3, cop, *credit(3, rng.choice([True, False]))),
+                     (4, cop, *fixed(4, [3]))]
+        plan += [(4, cops[0], *fixed(4, [5])), (4, cops[1], *fixed(4, [5]))]
+    return plan
 
 
 # ------------------------------------------------------------------------------------------------ driver
@@ -1155,6 +1299,13 @@ def run(ctx):
         gkw = {"h": rng.choice([0.1, 0.05]), "nb": 5 if i == 0 else rng.choice([5, 7, 9])}
         copula_case(ctx, margins, rng.choice(zoo.COPULAS), "fixed", gkw, "BINARYSEARCHTREEADAPTED",
                     firsts=rng.choice([(), ("BINARYSEARCHTREEADAPTED",)]))
+    # n-d chains (d >= 3: the factory's pairing is the n-dimensional Rosenberg-Strong one, not increasing along a grid line) for the
+    # INVERSION sampler: every copula once per run, on equal-sided fixed-size boxes and on credit grids whose origin is not the
+    # middle of the axes (pairing indices skipped), small in quick; larger ones and d = 4 in thorough
+    for dim, cop, gkind, gkw in nd_inversion_plan(ctx):
+        margins = [(rng.choice(["hem", "merton"]), {}) for _ in range(dim)]
+        copula_case(ctx, margins, cop, gkind, gkw, "INVERSION",
+                    firsts=rng.choice([(), ("INVERSION",), ("INVERSION", "BINARYSEARCHTREEADAPTED")]))
 
 
 def replay(ctx, rec):
